@@ -697,7 +697,7 @@ class PathEnv(FitEnv):
             return np.array([[core.var(f"vp{len(env.val_calls)}_{i}_{k}", "+") for k in range(env.dm["K"])] for i in range(m)], dtype=object)
         self.mdl.predict_proba = pp
         if y_given:
-            self.y = harness.symmetric_matrix(self.n, "pre")
+            self.y = harness.free_matrix(self.n, self.n, "pre")     # a user matrix: not assumed symmetric (rows and columns must both follow the batch)
 
     def path_epochs_done(self):
         per_epoch = -(-self.n // (self.batch_size or self.n))
